@@ -156,6 +156,32 @@ theorem decide_blocked_iff (g : Graph) (hg : g.WF) (s t : V) (inc : List V) (str
         simp [hp, hreach]
   · simp [decide_noPath g hg s t inc strict hreach, hreach]
 
+/-! ### the explicit-path shortcut -/
+
+/-- **an explicit route is the only route.**  `p` is the route spelled by the include list (the concatenated OMS of
+`explicit_path`).  If every hop `a → b` of `p` is forced — `b` is the only successor of `a` (transceiver → its ROADM, line
+element → next element), or `a` is the only predecessor of `b` and `b` lies on every route crossing the list (first
+element of an OMS named in the list, destination transceiver) — then every route crossing the include list IS `p`.
+Hence the shortcut returns the unique, and therefore the shortest, admissible route. -/
+theorem explicit_path_unique (g : Graph) (s t : V) (inc p q : List V) (hp : IsRoute g s t inc p)
+    (hq : IsRoute g s t inc q) (hf : ForcedChain g (fun b => b ∈ q) p) : q = p := by
+  have hne : p ≠ [] := by intro h; rw [h] at hp; simp [IsRoute] at hp
+  exact forced_path_unique g t p q hq.2.2.1 hq.2.2.2.1 hp.2.2.2.1 (by rw [hp.1, hq.1]) hne hp.2.1 hq.2.1 hf
+
+/-- the element in front of a visited line element is visited too (it is its only predecessor): an include naming any
+element of an OMS puts the first element of that OMS on every admissible route, which is what `explicit_path_unique`
+needs at the ROADM → first-element hops -/
+theorem line_predecessor_on_route (g : Graph) (s t : V) (inc q : List V) (x u : V) (hq : IsRoute g s t inc q)
+    (hx : x ∈ q) (hne : x ≠ s) (hpred : ∀ w, x ∈ g.succ w → w = u) : u ∈ q :=
+  pred_on_walk g q s x u hq.2.2.1 hq.1 hx hne hpred
+
+/-- consequently the explicit route is a shortest one -/
+theorem explicit_path_shortest (g : Graph) (s t : V) (inc p : List V) (hp : IsRoute g s t inc p)
+    (hf : ∀ q, IsRoute g s t inc q → ForcedChain g (fun b => b ∈ q) p) :
+    ∀ q, IsRoute g s t inc q → pathLen g p ≤ pathLen g q := by
+  intro q hq
+  rw [explicit_path_unique g s t inc p q hp hq (hf q hq)]
+
 /-! ### the route-list clean-up (`correct_json_route_list`) -/
 
 /-- **clean-up, accepted lists**: when every unusable entry (unknown name or transceiver) is LOOSE, the clean-up keeps
@@ -277,6 +303,20 @@ example : decideRoute demoG 0 3 [2, 1] true none = .noPathWithConstraint := by d
 example : decideRoute demoG 0 3 [2, 1] false none = .unconstrained [0, 2, 3] := by decide
 example : decideRoute demoG 3 0 [] false none = .noPath := by decide
 example : checkRoute demoG 0 3 [1] [0, 1, 3] = true ∧ checkRoute demoG 0 3 [1] [0, 2, 3] = false := by decide
+/-- in the diamond the include list [1] spells the route 0-1-3: node 1 has the single predecessor 0 and the single
+successor 3 -/
+example (q : List V) (hq : IsRoute demoG 0 3 [1] q) : q = [0, 1, 3] := by
+  refine explicit_path_unique demoG 0 3 [1] [0, 1, 3] q ((checkRoute_iff demoG 0 3 [1] [0, 1, 3]).1 (by decide)) hq ?_
+  refine ⟨Or.inr ⟨?_, hq.2.2.2.2.subset (by simp)⟩, Or.inl (by simp [demoG]), trivial⟩
+  intro w hw
+  simp only [demoG] at hw
+  by_cases h0 : w = 0
+  · exact h0
+  · by_cases h1 : w = 1
+    · subst h1; simp at hw
+    · by_cases h2 : w = 2
+      · subst h2; simp at hw
+      · simp [h0, h1, h2] at hw
 example : (∀ u v, 1000 ∣ demoG.len u v) ∧ (∀ u v, demoG.pseudo u v ≤ 1) := by
   constructor <;> intro u v <;> simp only [demoG] <;> split <;> (try split) <;> omega
 
